@@ -419,7 +419,7 @@ func runDereference(e *env) {
 		cl := &recClient{plan: map[string]int{}, deflt: code}
 		gs, ps := &recSigner{}, &recSigner{}
 		tp := e.newTransport(cl, gs, ps)
-		iri := fmt.Sprintf("https://remote%d.example/obj/%d?x=1", st%3, st)
+		iri := fmt.Sprintf("https://%s/obj/%d?x=1", []string{"remote0.example", "remote1.example:8443", "remote2.example:443", "[2001:db8::2]:8080", "[::1]"}[st%5], st)
 		b, err := tp.Dereference(bg, mustURL(iri))
 		e.r.Eval(1)
 		cas := map[string]interface{}{"op": "Dereference", "iri": iri, "status": code}
@@ -469,7 +469,7 @@ func runDeliver(e *env) {
 		cl := &recClient{plan: map[string]int{}, deflt: code}
 		gs, ps := &recSigner{}, &recSigner{}
 		tp := e.newTransport(cl, gs, ps)
-		to := fmt.Sprintf("https://remote.example:8443/inbox/%d", st)
+		to := fmt.Sprintf("https://%s/inbox/%d", []string{"remote.example:8443", "remote.example", "remote.example:443", "[2001:db8::1]:8443", "[::1]", "xn--bcher-kva.example"}[st%6], st)
 		err := tp.Deliver(bg, payload, mustURL(to))
 		e.r.Eval(1)
 		cas := map[string]interface{}{"op": "Deliver", "to": to, "status": code}
@@ -548,6 +548,13 @@ func runBatch(e *env, recipients []string, plan map[string]int, tag string) {
 		return
 	}
 	payload := []byte(fmt.Sprintf(`{"type":"Note","id":"https://local.example/n/%s"}`, tag))
+	// body shapes: short, non-ASCII, long (the body signed must be the body sent)
+	switch len(tag) % 4 {
+	case 1:
+		payload = []byte(fmt.Sprintf(`{"type":"Note","id":"https://local.example/n/%s","content":"héllo 世界 😀"}`, tag))
+	case 2:
+		payload = []byte(fmt.Sprintf(`{"type":"Note","id":"https://local.example/n/%s","content":"%s"}`, tag, strings.Repeat("x", 70000)))
+	}
 	cl := &recClient{plan: plan, deflt: 200, yield: true}
 	ps := &recSigner{failURL: map[string]bool{}}
 	for u, st := range plan {
@@ -706,7 +713,7 @@ func runBatches(e *env, seed int64, nRandom int) {
 	}
 	// every recipient fails, for every batch size up to 40 and for 64: the
 	// error channel must hold them all
-	for _, n := range append(seqInts(1, 40), 64) {
+	for _, n := range append(seqInts(1, 40), 64, 65, 100, 129, 257) {
 		plan := map[string]int{}
 		var rec []string
 		for j := 0; j < n; j++ {
@@ -715,6 +722,34 @@ func runBatches(e *env, seed int64, nRandom int) {
 			plan[u] = []int{500, 404, -1}[j%3]
 		}
 		runBatch(e, rec, plan, fmt.Sprintf("allfail%d", n))
+	}
+	// large mixed batches: every k-th recipient fails, duplicates among the
+	// failing ones, hosts with IPv6 literals and explicit default ports
+	for _, n := range []int{48, 96, 200} {
+		for _, k := range []int{2, 7, n} {
+			plan := map[string]int{}
+			var rec []string
+			for j := 0; j < n; j++ {
+				host := fmt.Sprintf("m%d.example", j%5)
+				switch j % 11 {
+				case 3:
+					host = "[2001:db8::" + fmt.Sprint(j) + "]:8443"
+				case 5:
+					host += ":443"
+				case 8:
+					host = "[::1]"
+				}
+				u := fmt.Sprintf("https://%s/inbox/%d", host, j)
+				rec = append(rec, u)
+				if (j+1)%k == 0 {
+					plan[u] = []int{500, -1, -2, 404}[j%4]
+					if j%3 == 0 {
+						rec = append(rec, u) // the failing recipient listed twice
+					}
+				}
+			}
+			runBatch(e, rec, plan, fmt.Sprintf("large%d-%d", n, k))
+		}
 	}
 	for i := 0; i < nRandom; i++ {
 		g := prng.New(seed, "c19.batch", i)
